@@ -1,7 +1,7 @@
 (* C30 — the partial theorem: every guarded execution keeps the invariant, hence at most one live
    instance and the registry names its node. *)
 From Coq Require Import List Arith Bool Lia.
-From GV Require Import C30.Registry C30.Model C30.Inv C30.InvD C30.InvL.
+From GV Require Import C30.Registry C30.Model C30.Proofs C30.Inv C30.InvD C30.InvL.
 Import ListNotations.
 
 Lemma upd_same : forall s n r ns, nodes (upd s n r ns) n = ns.
@@ -88,6 +88,14 @@ Example guarded_example_runs :
   | None => ([(9, 9)], None, None, None)
   end = ([(2, 1)], Some 2, Some RErr, Some ROk).
 Proof. vm_compute. reflexivity. Qed.
+
+Lemma partial_nonvacuous :
+  exists s, run_g state0 guarded_example = Some s /\ is_live s 2 1 /\ r_get gk (sreg s) = Some 2.
+Proof.
+  destruct (run_g state0 guarded_example) as [s|] eqn:E; [|vm_compute in E; discriminate].
+  exists s. split; auto. generalize guarded_example_runs. rewrite E. intros X. inversion X as [[L R1 R2 R3]].
+  split; auto. apply (in_live_nodes 3). rewrite L. simpl; auto.
+Qed.
 
 (* a guarded run equals the unguarded run (the guard only filters) *)
 Lemma run_g_run : forall ls s s', run_g s ls = Some s' -> run s ls = Some s'.
